@@ -119,6 +119,19 @@ func (l Layout) Width() (int64, bool) {
 	return w, true
 }
 
+// DeclWidth is the sum of the field widths exactly as listed (explicit zero fields at the
+// top included) — what must be used when padding a piece to a fixed position.
+func (l Layout) DeclWidth() (int64, bool) {
+	var w int64
+	for _, f := range l {
+		if !f.W.Const() || f.W.A >= INF {
+			return 0, false
+		}
+		w += f.W.A
+	}
+	return w, true
+}
+
 // Shr drops the n least significant bits.
 func (l Layout) Shr(n int64) (Layout, bool) {
 	if n < 0 {
@@ -290,7 +303,7 @@ func (l Layout) SubstSym(sym string, hasIdx bool, idx int64, repl Layout) (Layou
 		if !ok {
 			return nil, false
 		}
-		pw, okw := part.Width()
+		pw, okw := part.DeclWidth()
 		if !okw {
 			return nil, false
 		}
